@@ -9,7 +9,7 @@ def C(tech, text, note=TRUST, ref=None):
     return (tech, text, note, ref)
 CLAIMED = {
  "C01": C("property-based testing (proptest): generated data sets vs exact rational-arithmetic reference model, forward-error envelopes; textbook-killer family; hill-climbing search on error/envelope (thorough)",
-   "Exploration: Mean and Variance fed one observation at a time are compared accessor by accessor with exact big-integer statistics of the same multiset inside the DESIGN.md 4.1 envelope, over tens of thousands of constructed data sets (13 shapes x 6 orderings x 30 decades of scale x conditioning up to 1e12, n up to 3e4; thorough 1e5/1e6) plus data on which the textbook formula loses every digit. Cannot prove the bound for all inputs."),
+   "Exploration: Mean and Variance fed one observation at a time are compared accessor by accessor with exact big-integer statistics of the same multiset inside the DESIGN.md 4.1 envelope, over tens of thousands of constructed data sets (13 shapes x 6 orderings x 30 decades of scale x conditioning up to 1e12, n up to 3e4; thorough 1e5/1e6) plus data on which the textbook formula loses every digit and three fixed data sets of 66 000 to 262 200 observations in the quick tier. Cannot prove the bound for all inputs."),
  "C02": C("property-based testing: bounded-exhaustive enumeration of short sequences x chunkings x merge orders + proptest-generated (data, chunking, merge tree) vs exact reference model",
    "Exploration with an exhaustive sub-space: every sequence of length <= 4 over three 3-value alphabets x every composition into <= 4 possibly-empty contiguous chunks x every merge order, and generated data sets up to 3e4 elements with left-chain, right-chain, balanced and random merge trees, for Mean, Variance, Skewness, Kurtosis, Moments4 and define_moments! orders 5, 6, 7, 8, 9, 10; merged estimator judged against the exact statistics of the whole sequence with the single-pass envelope, len exact."),
  "C03": C("property-based testing: generated skewed / heavy-tailed / two-point / offset data vs exact standardized moments, envelopes; hill-climbing search (thorough)",
@@ -17,7 +17,7 @@ CLAIMED = {
  "C04": C("property-based testing: generated data x macro orders {4,5,6,7,8,9,10} x every p <= N vs exact central moments (scale: absolute central moment); cross-agreement metamorphic check; search (thorough)",
    "Exploration: seven define_moments! instantiations, every central and standardized moment up to the order, fixed values bit-for-bit, plus agreement with Mean/Variance/Skewness/Kurtosis within two envelopes."),
  "C05": C("model-based differential testing: bounded-exhaustive small-alphabet streams + proptest-generated streams, every prefix compared with an independent transcription of the P-square algorithm (ambiguity-aware); metamorphic monotone-tracking relation",
-   "Exploration with exhaustive sub-spaces: every stream over 2/3/4-value alphabets up to length 12/8/7 (thorough 16/11/9) x 8 values of p, and random streams of 10 kinds up to 2e3 (2e4) observations: after every observation from the fifth on quantile() and the serialised marker heights/positions equal the reference model's; arithmetic progressions are tracked within 0.10 range in both directions.",
+   "Exploration with exhaustive sub-spaces: every stream over 2/3/4/5-value alphabets (one of them {-1, -0.0, +0.0, 1}) up to length 13/9/7/6 (thorough 20/13/10/8) x 8 values of p, and random streams of 10 kinds up to 2e3 (2e4) observations: after every observation from the fifth on quantile() and the serialised marker heights/positions equal the reference model's; arithmetic progressions are tracked within 0.10 range in both directions.",
    "Trusted: harness/src/p2ref.rs (transcribed from Jain & Chlamtac 1985, not from the implementation); streams are compared only up to the first decision of the reference that is within 1e-9 relative of flipping. Marker state is read through serde (fields q, n)."),
  "C06": C("property-based testing: bounded-exhaustive edge lattices x boundary samples + proptest histories vs linear-scan model, catch_unwind; both histogram implementations (macro, const-generic on nightly)",
    "Exploration with an exhaustive sub-space: LEN 1..4, every non-decreasing edge vector over an 8-value lattice incl. +-inf and repeated edges, every edge +- 1 ulp, midpoints, +-inf, +-0, NaN; generated LEN 10/100 and with_const_width histograms with add histories; find/add vs the unique half-open bin, counts, totals, no panic.",
@@ -25,7 +25,7 @@ CLAIMED = {
  "C07": C("property-based testing: bounded-exhaustive (all permutations of every multiset of <= 4 values x p grid with every k/n boundary +- 1 ulp) + generated, vs exact-rational sample-quantile oracle",
    "Exploration with an exhaustive sub-space: all 780 sequences of length 1..4 over a 5-symbol alphabet with a duplicate x 130 values of p; n*p evaluated exactly; either adjacent convention accepted within rounding of a whole number."),
  "C08": C("property-based testing: generated (value, weight) streams with placed zero weights x 5 ingestion paths x merge trees vs exact weighted sums; metamorphic deletion of zero-weight pairs",
-   "Exploration: WeightedMean and WeightedMeanWithError against exact big-integer weighted sums with the DESIGN.md 4.1 envelopes, zero weights first / last / prefix / isolated / whole chunk."),
+   "Exploration: WeightedMean and WeightedMeanWithError against exact big-integer weighted sums with the DESIGN.md 4.1 envelopes, zero weights first / last / prefix / isolated / whole chunk; eleven ingestion paths, three of them through iterators whose size_hint lower bound is 0."),
  "C09": C("property-based testing: generated pairs (collinear, independent, mixed; independent placements) x ingestion paths x merge trees vs exact co-moments; swap metamorphic relation",
    "Exploration: every accessor of Covariance against exact statistics of the pairs, |pearson| <= 1 + envelope, swapped roles."),
  "C10": C("property-based testing: generated data from the minimum sample sizes upward, both signs of skew, vs exact textbook estimators; threshold table of sentinels; NaN-aware comparison",
@@ -33,19 +33,19 @@ CLAIMED = {
  "C11": C("stateful property-based testing: bounded-exhaustive short histories + proptest histories (new/add/merge/clone over a pool) with bit-pattern snapshots of every accessor",
    "Exploration with an exhaustive sub-space: all histories of <= 3 operations over two estimators and three symbols for 14 types, generated histories up to 30 (80) operations; identity probes in both directions, additivity of len, is_empty consistency."),
  "C12": C("property-based testing: bounded-exhaustive input lists over a 9-value lattice (NaN, +-inf, -0.0) + generated fault injection vs scanning oracle; with_const_width vs exact rational edges; both implementations",
-   "Exploration with an exhaustive sub-space: every list of length 0..LEN+3 over 9 values for LEN 1..4 (about 6 million lists per implementation), generated LEN 10/100 lists with one injected fault; with_const_width over 30 decades against exact rational edge positions (8 ulp)."),
+   "Exploration with an exhaustive sub-space: every list of length 0..LEN+3 over 9 values for LEN 1..4 (about 6 million lists per implementation), generated LEN 10/100 lists with one injected fault; the error of the first offending position (missing, NaN or descending) is prescribed for every input; with_const_width over 30 decades against exact rational edge positions (8 ulp)."),
  "C13": C("stateful model-based testing: proptest histories (add, merge, +=, *=, reset, clone over four histograms, equal / numerically equal / different edges) vs Vec<u64> model; NaN-aware view comparison; commutativity/associativity probes; both implementations",
-   "Exploration: after every step counts and edges equal the bin-wise model; merge and += agree or both panic leaving operands untouched; iteration and derived views follow their definitions with IEEE semantics."),
+   "Exploration: after every step counts and edges equal the bin-wise model; merge and += agree or both panic leaving operands untouched; iteration and derived views follow their definitions with IEEE semantics, and all six iterators obey the Iterator protocol (nth, skip, step_by, count, last, size_hint agree with next()-by-next() iteration)."),
  "C14": C("property-based testing: bounded-exhaustive sequences over {NaN, +-inf, +-0, finite} x chunkings x merge orders x construction paths + generated, vs fold oracle",
    "Exploration with an exhaustive sub-space: all sequences of length <= 5 over a 7-symbol alphabet x all chunkings into <= 3 parts x both merge orders x 6 construction paths (about 5.5 million cases), both merge directions."),
  "C15": C("property-based testing: the C05 stream generators with per-observation invariants (len, p, range, marker order) + constructor domain incl. arbitrary f64 bit patterns, catch_unwind",
-   "Exploration with exhaustive sub-spaces: invariants after every observation over the exhaustive small-alphabet streams and generated streams; Quantile::new panics exactly outside [0,1]."),
+   "Exploration with exhaustive sub-spaces: invariants after every observation over the exhaustive small-alphabet streams and generated streams, and at power-of-two checkpoints of six single streams of 3.7 to 7.2 million observations (thorough x4); Quantile::new panics exactly outside [0,1]."),
  "C16": C("bounded-exhaustive table (type x accessor x n in 0..4 x 60 values, constant streams to 1e4) + generated values, sentinel oracle, catch_unwind with allow-list of the one documented assertion",
-   "Exploration with an exhaustive sub-space: the complete finite table of C16 for 13 estimator types, constant add-only streams, zero-total-weight samples."),
+   "Exploration with an exhaustive sub-space: the complete finite table of C16 for 13 estimator types, constant add-only streams, zero-total-weight samples; the pair estimators fed through add and, a second time, by reference (collect / extend / extend from a filter)."),
  "C17": C("property-based testing: generated ill-conditioned data (no kappa bound: one-ulp spreads, 1e15 offsets, subnormals, mixed magnitudes) x merge trees with sign/range predicates; random histogram counts",
-   "Exploration: variances >= 0, error real, means inside the data range up to 8 n u max|x| + n 2^-1074, effective_len in [1, len], bin variances in [0, total/4]. One genuine, unrepaired finding (K1, subnormal products in WeightedMean::merge) is listed in KNOWN_FINDINGS.txt under its own signature."),
+   "Exploration: variances >= 0, error real, means inside the data range up to 8 n u max|x| + n 2^-1074, effective_len in [1, len], bin variances in [0, total/4] for histograms built through mixed add / *= / merge / += histories; a targeted family (a run of tied values merged with one observation 1-3 ulps away) for rounding coincidences in merge. One genuine, unrepaired finding (K1, subnormal products in WeightedMean::merge) is listed in KNOWN_FINDINGS.txt under its own signature."),
  "C18": C("stateful property-based testing: proptest streams of adds/merges with a checkpoint; serde_json (float_roundtrip) round trip, per-document losslessness precondition, bit-pattern comparison after every continued step",
-   "Exploration: 18 estimator types incl. Quantile at three p and histograms LEN 3/10/100; every checkpoint position of short streams, long streams up to 60 (400) operations.",
+   "Exploration: 18 estimator types incl. Quantile at three p and histograms LEN 3/10/100; every checkpoint position of short streams, long streams up to 60 (400) operations, and late checkpoints after 70 000 to 400 000 (thorough 3 000 000) observations for every type.",
    "Trusted: serde_json with float_roundtrip as the lossless format (verified per document: re-parsing and re-printing preserves every number token); states with non-finite fields are outside the property."),
  "C19": C("property-based testing over configurations: explicit rayon pools {1,2,3,4,8,16} x 8 splitting bounds x {par_iter, into_par_iter} x repetitions vs exact statistics with schedule-independent envelopes",
    "Exploration: the parts of the schedule the harness owns (pool size, split granularity, repetition, oversubscription) are swept; steal order is sampled, not enumerated. The schedule-independent half of the claim — every contiguous chunking and merge tree — is decided by C02/C11.",
